@@ -2,7 +2,7 @@
     conclusions say something (a bond really changes, a charge really moves, the additive branch is really taken, no
     ITS is really produced).  Intermediate values are top-level Definitions (no destructuring lets in statements). *)
 From Coq Require Import List NArith ZArith Bool Lia Permutation.
-From SK Require Import lib.Tok lib.LGraph model.C03_Model proof.C03_Proof proof.C03_Glue proof.C03_Backward proof.C03_ExplicitH proof.C03_ExplicitShape proof.C03_ExplicitTotal proof.C03_Expand proof.C03_Default proof.C03_Iso proof.C03_Skeleton proof.C03_StripCounts proof.C03_Wiring proof.C03_WiringCount proof.C03_PairIds proof.C03_StripExact proof.C03_StripCor proof.C03_PairIdsComplete proof.C03_DefaultBalance proof.C03_DefaultEnd.
+From SK Require Import lib.Tok lib.LGraph model.C03_Model proof.C03_Proof proof.C03_Glue proof.C03_Backward proof.C03_ExplicitH proof.C03_ExplicitShape proof.C03_ExplicitTotal proof.C03_Expand proof.C03_Default proof.C03_Iso proof.C03_Skeleton proof.C03_StripCounts proof.C03_Wiring proof.C03_WiringCount proof.C03_PairIds proof.C03_StripExact proof.C03_StripCor proof.C03_PairIdsComplete proof.C03_DefaultBalance proof.C03_DefaultEnd proof.C03_DefaultWiring.
 Import ListNotations.
 Local Open Scope Z_scope.
 
@@ -310,3 +310,9 @@ Qed.
 Example ex_default_end_to_end : explicit_h ex_T_s = Some (match explicit_h ex_T_s with Some p => fst p | None => LG [] [] end, [(2%N, 3%N)]) /\
   sumZ dQ ex_rc_s = 0.
 Proof. vm_compute. split; reflexivity. Qed.
+
+(** the migration of ex_T_s (O 2 -> N 3 on CH3OH . NH3) is the image of the template atoms 1 and 3, linked through hydrogen 2 *)
+Example ex_default_migrations : tpl_group ex_tpl_x 1%N 3%N /\ mget ex_m_s 1%N = Some 2%N /\ mget ex_m_s 3%N = Some 3%N.
+Proof.
+  split; [|split; reflexivity]. eapply tg_step; [|constructor]. exists 2%N. vm_compute. auto.
+Qed.
